@@ -8,7 +8,7 @@ from vlib import core, gen
 PROP = "C03"
 META = {
     "technique": "Coq proof: integer arithmetic with explicit uint32/uint64 wraps over an executable model of createBufferManager/mappingBufferManager/create*/mapping* queue code, induction over the (size, percent) list; tie: generated constants and per-side field offsets + differential execution of the real functions on generated configurations",
-    "level_text": "Theorems C03_buffers_partial / C03_peer_view_partial / C03_queues_partial hold for every pair list, every percentage, every initial memory content and every mapping length below 4 GiB - 36 B (queues: 24+12*cap < 2^32); the full statements are kept and refuted by computed 4 GiB witnesses (C03_*_refuted). The model is tied to /repo by regenerated constants/offsets (a creator/mapper offset mismatch breaks the proof) and by running the real functions on hundreds of configurations (heap bytes, /dev/shm files, memfds) whose outcome class and class/queue geometry must equal the model's; an independent oracle checks disjointness, bounds, header placement, peer equality, the initial free chain and queue cross-wiring on the Go structures of every case.",
+    "level_text": "Theorems C03_buffers_partial / C03_peer_view_partial / C03_initial_chain / C03_queues_partial hold for every pair list, every percentage, every initial memory content and every mapping length below 4 GiB - 36 B (queues: 24+12*cap < 2^32); the full statements are kept and refuted by computed 4 GiB witnesses (C03_*_refuted). The model is tied to /repo by regenerated constants/offsets (a creator/mapper offset mismatch breaks the proof) and by running the real functions on hundreds of configurations (heap bytes, /dev/shm files, memfds) whose outcome class and class/queue geometry must equal the model's; an independent oracle checks disjointness, bounds, header placement, peer equality, the initial free chain and queue cross-wiring on the Go structures of every case.",
     "level_note": "Trusted: coqc kernel; cell-granular memory (aligned 4-byte header words); offset argument 0 (all callers); amd64 branch of mappingQueueFromBytes; mmap/ftruncate/memfd semantics of the kernel; the literal 100 of createBufferManager is not regenerated; configurations are sampled. Guards forced by the proofs (4 GiB mappings / >=357 913 940-entry queues / >=65 536 classes) are degenerate and reported as findings, not proved safe.",
 }
 
